@@ -52,7 +52,9 @@ def active(E, st, r):
 
 REG.add(Contract(MM, "Model.medium@getter.is_active", "C18", [RX], [
     Case("any", ensures=lambda E: E.res.t == active(E, E.s0, E["reaction"].t)),
-], key="medium.is_active", result="bool"))
+], key="medium.is_active",
+    # the result is the term itself (not a fresh constant constrained by the post): usable inside comprehension conditions
+    result=lambda eng, st, E: (st, VBool(active(E, st, E["reaction"].t)))))
 
 
 def _gab_post_r(E):
@@ -72,7 +74,30 @@ def _gab_cases():
     return [c1, c2, c3]
 
 
-REG.add(Contract(MM, "Model.medium@getter.get_active_bound", "C18", [RX], _gab_cases(), key="medium.get_active_bound", result="real"))
+_gab = REG.add(Contract(MM, "Model.medium@getter.get_active_bound", "C18", [RX], _gab_cases(), key="medium.get_active_bound", result="real"))
+
+
+def import_bound(E, st, r):
+    """the import-side bound of r as ONE term: -lb for a reaction with reactants (`met -->`), else ub"""
+    lb, ub = C1.lbub(E, st, r)
+    hr = flag(E, st, "has_reactants", r)
+    return VReal(z3.If(hr, -lb.k, ub.k), z3.If(hr, -lb.v, ub.v))
+
+
+def _gab_call_cases():
+    """how get_active_bound is seen AT CALL SITES: the two value cases merged into one whose result is the term import_bound (no
+    fork, no fresh constant: usable as the value expression of a comprehension); implied by the proved cases above - the
+    implication is the lemma `get_active_bound-call-summary` below"""
+    c1 = Case("has_a_side", requires=lambda E: z3.Or(flag(E, E.s0, "has_reactants", E["reaction"].t),
+                                                      flag(E, E.s0, "has_products", E["reaction"].t)))
+    c1.result = lambda eng, st, E: (st, import_bound(E, st, E["reaction"].t))
+    c3 = Case("empty_reaction", requires=lambda E: z3.And(z3.Not(flag(E, E.s0, "has_reactants", E["reaction"].t)),
+                                                          z3.Not(flag(E, E.s0, "has_products", E["reaction"].t))))
+    c3.result = lambda eng, st, E: (st, NONE)
+    return [c1, c3]
+
+
+_gab.call_cases = _gab_call_cases()
 
 
 # ---------------------------------------------------------------- set_active_bound
